@@ -40,7 +40,7 @@ def tuple_from_normalize(f, d, rv):
                 base = base["base"]
             # a field of a struct literal (e.g. a `NormalizedText { text, line_map }` helper value): continue with
             # the operand that initialises that field
-            if base.get("k") == "agg" and base["rv"].get("agg") == "adt" and len(prs) >= 1 and isinstance(prs[0], int) and \
+            if base.get("k") == "agg" and base["rv"].get("agg") in ("adt", "tuple") and len(prs) >= 1 and isinstance(prs[0], int) and \
                     prs[0] < len(base["rv"].get("ops", [])) and len(prs) == 1:
                 oo = d.origin_op(base["rv"]["ops"][prs[0]], PT)
                 continue
@@ -120,20 +120,28 @@ def run(F, res, tier):
     h = F.fn(S + "on_did_change")
     loops = [(t, hd, h.natural_loop(t, hd)) for t, hd in h.back_edges()]
     units = change_units(F, h)
-    conv_in_closure = [c for c in units if any(callee(t) == "glas::convert::from_range" for b, t in F.fns[c].calls())]
-    call_sites = [b for b, t in h.calls() if callee(t) in conv_in_closure]
-    direct_conv = [b for b, t in h.calls() if callee(t) in ("glas::convert::from_range", "glas::convert::from_pos", VFS + "::line_map_for_file")]
-    in_loop = lambda b: any(b in body for _, _, body in loops)  # noqa: E731
-    apply_sites = [c for c in units if any(callee(t) == VFS + "::change_file_content" for b, t in F.fns[c].calls())]
-    ok = bool(call_sites) and all(in_loop(b) for b in call_sites) and all(in_loop(b) for b in direct_conv) and \
-        set(conv_in_closure) == set(apply_sites)
+    CONV = ("glas::convert::from_range", "glas::convert::from_pos", VFS + "::line_map_for_file")
+    conv_units = [c for c in units if any(callee(t) in CONV for b, t in F.fns[c].calls())]
+    apply_units = [c for c in units if any(callee(t) == VFS + "::change_file_content" for b, t in F.fns[c].calls())]
+    # the per-change unit of work is a closure, a helper, or the loop body itself
+    conv_blocks = [b for b, t in h.calls() if callee(t) in CONV or callee(t) in conv_units]
+    apply_blocks = [b for b, t in h.calls() if callee(t) == VFS + "::change_file_content" or callee(t) in apply_units]
+
+    def loop_of(b):
+        hs = sorted(hd for _, hd, body in loops if b in body)
+        return hs[-1] if hs else None
+    in_loop = lambda b: loop_of(b) is not None  # noqa: E731
+    same = {loop_of(b) for b in conv_blocks + apply_blocks}
+    ok = bool(conv_blocks) and bool(apply_blocks) and all(in_loop(b) for b in conv_blocks + apply_blocks) and len(same) == 1 and \
+        (not conv_units or set(conv_units) <= set(apply_units) or any(callee(h.term(b)) == VFS + "::change_file_content" for b in apply_blocks))
     res.ob("D2", "on_did_change/line-map-reread-per-change", "each change's range is converted with the line map of the text as it is after the "
-           "previous change (conversion and splice happen in the same per-change closure or helper, called inside the loop)", ok, where=h.loc(),
-           how="closure call sites in loop: %s; conversions outside the loop: %d" % ([in_loop(b) for b in call_sites], sum(1 for b in direct_conv if not in_loop(b))))
-    skip = FL.every_iteration_passes(h, call_sites) if call_sites else [("?", "?")]
+           "previous change (conversion and splice happen in the same iteration of the loop over the changes - in its body, a closure or a helper)",
+           ok, where=h.loc(), how="conversion sites in the loop: %s; splice sites in the loop: %s; same loop: %s"
+           % ([in_loop(b) for b in conv_blocks], [in_loop(b) for b in apply_blocks], len(same) == 1))
+    skip = FL.every_iteration_passes(h, apply_blocks) if apply_blocks else [("?", "?")]
     res.ob("D2", "on_did_change/every-change-applied", "every content change of a notification is handed to the splice: no iteration of the loop goes "
            "round without it (a skipped change leaves the server's text behind the editor's)", not skip, where=h.loc(),
-           how="iterations that can skip the per-change unit: %d" % len(skip))
+           how="iterations that can skip the splice: %d" % len(skip))
     fr = F.fn("glas::convert::from_range")
     lm = [b for b, t in fr.calls() if callee(t) == VFS + "::line_map_for_file"]
     res.ob("D2", "from_range/fresh-line-map", "convert::from_range fetches the file's current line map itself", len(lm) == 1, where=fr.loc(),
